@@ -194,4 +194,23 @@ theorem skel_WaitForReplacement_ok : skel_WaitForReplacement = ([
   "return",
   "time.Sleep"] : List String) := rfl
 
+theorem skel_newProviderDataFromConfig_ok : skel_newProviderDataFromConfig = ([
+  "if err != nil",
+  "return nil, err",
+  "if needsVerifier",
+  "if err != nil",
+  "return nil, fmt.Errorf(\"error building OIDC ProviderVerifier: %v\", err)",
+  "fmt.Errorf",
+  "if pv.DiscoveryEnabled()",
+  "url.Parse",
+  "if err != nil",
+  "fmt.Errorf",
+  "if len(errs) > 0",
+  "return nil, k8serrors.NewAggregate(errs)",
+  "if len(p.SupportedCodeChallengeMethods) != 0 && p.CodeChallengeMethod == \"\"",
+  "if providerConfig.OIDCConfig.UserIDClaim == \"\"",
+  "if providerConfig.OIDCConfig.EmailClaim == options.OIDCEmailClaim && providerConfig.OIDCConfig.UserIDClaim != options.OIDCEmailClaim",
+  "p.setAllowedGroups",
+  "return p, nil"] : List String) := rfl
+
 end O2P.Expect.C08
